@@ -135,7 +135,8 @@ def run(ctx):
         "round_trips_per_case": 3,
         "rule": f"spec/GraphSerde.tla!Plain: every DAG with <= {consts['MaxN']} uniquely named nodes (named n1..n3, and again with names "
                 f"that coincide with output names 'a'/'b'/'0' rotated, and with input names / serialisation keys), per node one of 5 output "
-                f"lists ([], ['0'], ['a'], ['a','b'], ['0','a']; only [], ['0'], ['a','b'] beyond {consts['MaxRichN']} nodes), inputs x/y each absent or bound to any output of an earlier node, "
+                f"lists ([], ['0'], ['a'], ['a','b'], ['0','a']; only [], ['0'], ['a','b'] beyond {consts['MaxRichN']} nodes), (graphs up to that size also a list of twelve numbered outputs), every graph with a multi-output node also with its "
+                f"output lists reversed, inputs x/y each absent or bound to any output of an earlier node, "
                 f"payloads rotated through 14 literals (all rotations up to {consts['MaxPayN']} nodes, 1-2 beyond); "
                 f"each graph with an edge also with a sink list that names every node (consumed ones included); !Fluent: from_source over 1..3 sources (single/two-output) followed by <= {consts['MaxOps']} of map/reduce/add/"
                 "scale, as the action's own graph and as the union Cascade.from_actions([sources, action]); all enumerated by TLC; non-trivial = has an edge or is fluent; TLC evaluates GraphSerde!Post on every "
